@@ -53,16 +53,12 @@ Theorem C09_triebuf_lookup_perm : forall tb0 s0, refines tb0 s0 -> forall ops k,
 Proof. intros tb0 s0 H ops k. apply lookup_perm. now apply after_refines. Qed.
 Print Assumptions C09_triebuf_lookup_perm.
 
-(* phrase-set-only form of the lookup statement *)
+(* phrase-set-only form of the lookup statement (the frequency-free reading; implied by the
+   full statement above) *)
 Theorem C09_triebuf_lookup_partial : forall tb0 s0, refines tb0 s0 -> forall ops k p,
   In p (map ph_text (tb_lookup fixed (after tb0 ops) k USIZE_MAX Standard)) <->
   s_find (k, p) (spec_run s0 ops) <> None.
-Proof.
-  intros tb0 s0 H ops k p. destruct (tb_lookup_spec tb0 s0 H ops k) as [_ Hx]. split.
-  - intro Hin. apply in_map_iff in Hin as [ph [<- Hin]]. apply Hx in Hin. congruence.
-  - intro Hn. destruct (s_find (k, p) (spec_run s0 ops)) as [[f t]|] eqn:E; [|congruence].
-    apply in_map_iff. exists (mkPhrase p f t). split; [reflexivity|]. apply Hx. exact E.
-Qed.
+Proof. exact tb_lookup_set. Qed.
 Print Assumptions C09_triebuf_lookup_partial.
 
 (* enumeration yields exactly the live entries: a permutation of the map *)
